@@ -258,11 +258,74 @@ static void run_two_owners(void)
 	rcu_unregister_thread();
 }
 
+/* a reader section that starts after the reclaimer's (or a barrier's) grace period has begun is not
+ * covered by that grace period: calls deferred during that section must wait for one of their own */
+#define N_S2B 400
+#define N_S2E 401
+#define N_CT(i) (410 + (i))
+static void *reader2(void *a)
+{
+	(void)a;
+	rcu_register_thread();
+	RD_LOCK();
+	vrt_note_set(N_SECB, vrt_now());
+	uatomic_inc(&nready);
+	(void)LD(x);
+	vrt_yield();
+	vrt_note_set(N_SECE, vrt_now() + 1);
+	RD_UNLOCK();
+	RD_LOCK();
+	vrt_note_set(N_S2B, vrt_now());
+	uatomic_inc(&nready);
+	(void)LD(x);
+	vrt_yield();
+	(void)LD(yv[1]);
+	vrt_note_set(N_S2E, vrt_now() + 1);
+	RD_UNLOCK();
+	rcu_unregister_thread();
+	return NULL;
+}
+
+static void run_late_reader(void)
+{
+	pthread_t r, b;
+	int i, j, third = (int)vrt_param("third_party", 0);
+
+	rcu_register_thread();
+	rcu_defer_register_thread();
+	pthread_create(&r, NULL, reader2, NULL);
+	BLOCKING(vrt_await(ready_pred, (void *)1L));
+	ST(x, 1);
+	vrt_note_set(N_CT(0), vrt_now() + 1);
+	do_defer(0, 0, (void *)0x1000);		/* wakes the reclaimer: its grace period starts during section 1 */
+	if (third)
+		pthread_create(&b, NULL, barrier_thread, NULL);
+	BLOCKING(vrt_await(ready_pred, (void *)2L));
+	vrt_note_set(N_CT(1), vrt_now() + 1);
+	do_defer(0, 1, (void *)0x2000);		/* section 2 is already running: it pre-exists this call */
+	BLOCKING(vrt_await(all_ran, (void *)2L));
+	BLOCKING(pthread_join(r, NULL));
+	if (third)
+		BLOCKING(pthread_join(b, NULL));
+	check_log("late_reader", 0, 1);
+	for (i = 0; i < 2; i++)
+		for (j = 0; j < 2; j++) {
+			unsigned long sb = vrt_note_get(j ? N_S2B : N_SECB), se = vrt_note_get(j ? N_S2E : N_SECE);
+
+			VRT_CHECK(!(se && sb < vrt_note_get(N_CT(i)) && vrt_note_get(RTIME(0, i)) < se),
+				  "late_reader: deferred call %d ran at %lu inside reader section %d [%lu,%lu) that began before its defer_rcu (%lu)",
+				  i, vrt_note_get(RTIME(0, i)), j + 1, sb, se, vrt_note_get(N_CT(i)));
+		}
+	BLOCKING(rcu_defer_unregister_thread());
+	rcu_unregister_thread();
+}
+
 struct vrt_scenario vrt_scenarios[] = {
 	{ "seq", run_seq, "all operation sequences of length len over (fct,arg) x barrier x re-registration" },
 	{ "background", run_background, "reclaimer runs queued calls with no further API call || reader" },
 	{ "barrier", run_barrier, "owner barrier racing with the reclaimer || reader" },
 	{ "wrap", run_wrap, "queue wrap-around / self flush with the reclaimer active" },
 	{ "two_owners", run_two_owners, "two owners, third-party barrier, unregistration" },
+	{ "late_reader", run_late_reader, "a section beginning after the reclaimer's grace period started pre-exists a later defer_rcu" },
 	{ NULL, NULL, NULL }
 };
